@@ -75,8 +75,11 @@ type EvV struct {
 
 // MapIterV iterates a Go map in an arbitrary order.
 type MapIterV struct {
-	Map  Value
-	Loop int
+	Map     Value
+	M0      string // the map value when the iteration started
+	ID      string
+	PosCell int
+	KS, VS  string
 }
 
 // NilFnV is a nil function value.
